@@ -314,12 +314,26 @@ def case(ctx, rng, idx, state):
     if rng.random() < 0.7:
         gens = [pool[i] for i in rng.choice(len(pool), int(rng.integers(1, 4)), replace=False)]
         system.set_pointgroup(gens)
+    # the system may have been used before it is saved: caches are populated, and it may have gone through other API calls
+    hist = "as_built"
+    u = rng.random()
+    if u < 0.2 and not system.spinor and not any(k in others for k in ("SS", "SA", "SHA", "SR", "SH", "SHR")):
+        import wannierberri as wb
+        _ = system.range_wann, system.wannier_centers_red, system.rvec.iR0, system.rvec.cRvec_shifted
+        wb.evaluate_k(system, k=(0.1, 0.2, 0.3 * periodic[2]), quantities=["energy"])
+        system.double_spin()
+        nw = system.num_wann
+        keys = keys + tuple(k for k in system._XX_R if k not in keys)   # double_spin adds SS
+        hist = "used_then_double_spin"
+    elif u < 0.5:
+        system, hist = gen_systems.history_variant(rng, system, which=gen_systems.HISTORIES_NO_DISK[1 + int(rng.integers(3))])
+    ctx.count(f"history_{hist}")
     nR = system.rvec.nRvec
     Ham = system.get_R_mat("Ham")
     iR0 = system.rvec.iR0
     hop = float(np.abs(np.delete(Ham, iR0, axis=0)).max()) if nR > 1 else 0.0
     kpts = rng.uniform(-0.5, 1.0, (2, 3)) * np.array(periodic, dtype=float)[None, :]
-    wit = dict(nw=nw, lattice=kind, nR=nR, centers=cmode, keys=keys, generators=gens, periodic=periodic,
+    wit = dict(history=hist, nw=nw, lattice=kind, nR=nR, centers=cmode, keys=keys, generators=gens, periodic=periodic,
                group_size=system.pointgroup.size)
     has_AA = "AA" in keys
     berry_full = "berry_curvature" if has_AA else "berry_curvature_internal_terms"
